@@ -76,7 +76,7 @@ def parts():
                    old(self)@.contains_key(request_id) ==> r is Err && final(self)@ =~= old(self)@ && final(self).timers() =~= old(self).timers(), // @C01,C11
                    !old(self)@.contains_key(request_id) ==> r is Ok && final(self)@ =~= old(self)@.insert(request_id, CEntry { ctx, chan: response_completion.chan() }), // @C01,C18
                    !old(self)@.contains_key(request_id) ==> !old(self).timers().contains_key(final(self).key_of(request_id))
-                       && final(self).timers() =~= old(self).timers().insert(final(self).key_of(request_id), delay_queue::Entry { value: request_id, delay: until(ctx.deadline) }), // @C05,C11
+                       && final(self).timers() =~= old(self).timers().insert(final(self).key_of(request_id), delay_queue::Entry { value: request_id, delay: dmin(until(ctx.deadline), max_timer_delay()) }), // @C05,C11
                '''),
             Fn(SRC, IMPL, 'complete_request', fx=True, tags='C16',
                requires='old(self).wf(), // @core',
